@@ -274,7 +274,11 @@ func c01ExtractChainLower(repo string) (string, string, error) {
 		t := c01ChainTr(sp.name)
 		t.env = append(t.env, sp.params...)
 		sp.setup(t)
-		body := fn.Body.List
+		inl, err := c01NewInl(repo, []string{"compose", "chain.go"}, "Chain", recv, fn, func(c *ast.CallExpr) bool { _, _, ok := t.callOf(c); return ok })
+		if err != nil {
+			return "", "", err
+		}
+		body := inl.body(fn.Body.List)
 		if sp.name == "AppendBranch" {
 			env := map[string]bool{"c": true}
 			ast.Inspect(fn.Body, func(n ast.Node) bool {
